@@ -111,10 +111,17 @@ let rel_of_table (tab : string) : BinNums.coq_N list -> BinNums.coq_N list res =
     | Some o -> Ok (str_of_hex o)
     | None -> raise (Stop "NOFMT")
 
+(* The relations branch is C13's model of parse_relaxed(v, true) + Relations::wrap_and_sort +
+   to_string (RelWrap.ctl_rel): nothing of the implementation enters the model side.  The table
+   field of the case (the implementation's own values, computed when the case was generated) is
+   used by the oracle only -- and by the model when VERIF_C07_REL=table asks for the old behaviour. *)
+let real_rel : BinNums.coq_N list -> BinNums.coq_N list res = RelWrap.ctl_rel RelWrap.fixed
+
 let control_wrap (fs : string list) : string =
   let s = str_of_hex (L.nth fs 0) in
   let c = parse_cfg (L.nth fs 1) in
-  let rel = rel_of_table (if L.length fs > 2 then L.nth fs 2 else "-") in
+  let rel = if Sys.getenv_opt "VERIF_C07_REL" = Some "table"
+    then rel_of_table (if L.length fs > 2 then L.nth fs 2 else "-") else real_rel in
   guarded (fun () ->
     match Deb822Parse.from_str s with
     | Err _ -> "strict=ERR" | Panic _ -> "PANIC" | OutOfFuel -> "HANG"
